@@ -1,6 +1,201 @@
 import DaskModel.DriverLib
+import DaskModel.Model.Config
+import DaskModel.Generated.ConfigTables
+import DaskModel.Model.LockReg
 open Dask
 
-def table : List (String × Handler) := []
+/-! ## C17 — config store
+
+Wire format: a config value is an integer (leaf code) or a list of `("key" value)` pairs (mapping). -/
+namespace C17
+open Dask.Config
+
+partial def toCfg? : SExp → Option Cfg
+  | .int i => some (.leaf i)
+  | .list items => do
+    let kvs ← items.mapM fun it =>
+      match it with
+      | .list [k, v] => do pure ((← k.toStr?), (← toCfg? v))
+      | _ => none
+    pure (.node kvs)
+  | _ => none
+
+def toDict? (e : SExp) : Option Dict := do
+  match ← toCfg? e with
+  | .node d => some d
+  | .leaf _ => none
+
+partial def ofCfg : Cfg → SExp
+  | .leaf i => .int i
+  | .node d => .list (d.map fun kv => .list [.str kv.1, ofCfg kv.2])
+
+def ofDict (d : Dict) : SExp := ofCfg (.node d)
+
+def ofPath (p : List String) : SExp := .list (p.map .str)
+
+def ofOp : Op → SExp
+  | .replace p old => .list [.sym "replace", ofPath p, ofCfg old]
+  | .insert p => .list [.sym "insert", ofPath p]
+
+def toOp? : SExp → Option Op
+  | .list [.sym "replace", p, old] => do
+    pure (.replace (← (← p.toList?).mapM SExp.toStr?) (← toCfg? old))
+  | .list [.sym "insert", p] => do pure (.insert (← (← p.toList?).mapM SExp.toStr?))
+  | _ => none
+
+/-- items `("key" value kw?)` of one `set(arg, **kwargs)` call, already in call order -/
+def toItems? (e : SExp) : Option (List (Option (List String × Cfg))) := do
+  (← e.toList?).mapM fun it =>
+    match it with
+    | .list [k, v, kw] => do
+      pure (prepOp Dask.Generated.ConfigTables.deprecations (← kw.toBool?) (← k.toStr?) (← toCfg? v))
+    | _ => none
+
+def ofSetResult : SetResult → SExp
+  | .ok d r => .list [.sym "ok", ofDict d, .list (r.map ofOp)]
+  | .raised d => .list [.sym "raised", ofDict d]
+  | .brokenRollback => .list [.sym "broken"]
+
+/-- `(cfg-set items cfg)` -/
+def hSet : Handler := handler fun args =>
+  match args with
+  | [items, cfg] => do pure (ofSetResult (setInit (← toItems? items) (← toDict? cfg)))
+  | _ => none
+
+/-- `(cfg-set-norollback items cfg)`: the code before the repair (used by the search to explain a regression) -/
+def hSetNoRollback : Handler := handler fun args =>
+  match args with
+  | [items, cfg] => do pure (ofSetResult (setInitNoRollback (← toItems? items) (← toDict? cfg)))
+  | _ => none
+
+/-- `(cfg-exit record cfg)` -/
+def hExit : Handler := handler fun args =>
+  match args with
+  | [record, cfg] => do
+    let r ← (← record.toList?).mapM toOp?
+    match rollback r (← toDict? cfg) with
+    | some d => pure (.list [.sym "ok", ofDict d])
+    | none => pure (.list [.sym "raised"])
+  | _ => none
+
+def ofGet : GetResult → SExp
+  | .ok v => .list [.sym "ok", ofCfg v]
+  | .keyError => .list [.sym "KeyError"]
+  | .typeError => .list [.sym "TypeError"]
+
+/-- `(cfg-get "a.b" cfg)` -/
+def hGet : Handler := handler fun args =>
+  match args with
+  | [k, cfg] => do pure (ofGet (get (← k.toStr?) (← toDict? cfg)))
+  | _ => none
+
+/-- `(cfg-canon "k" cfg)` -/
+def hCanon : Handler := handler fun args =>
+  match args with
+  | [k, cfg] => do pure (.str (canonicalName (← k.toStr?) (← toDict? cfg)))
+  | _ => none
+
+def toPrio? : SExp → Option Priority
+  | .sym "new" => some .new
+  | .sym "old" => some .old
+  | .sym "new-defaults" => some .newDefaults
+  | _ => none
+
+/-- `(cfg-update prio old new defaults|none)` -/
+def hUpdate : Handler := handler fun args =>
+  match args with
+  | [p, old, new, dflt] => do
+    let dd ← match dflt with
+      | .sym "none" => some none
+      | e => (toCfg? e).map some
+    match update (← toPrio? p) (← toDict? old) (← toDict? new) dd with
+    | some d => pure (.list [.sym "ok", ofDict d])
+    | none => pure (.list [.sym "raised"])
+  | _ => none
+
+/-- `(cfg-merge (d1 d2 …))` -/
+def hMerge : Handler := handler fun args =>
+  match args with
+  | [ds] => do
+    match merge (← (← ds.toList?).mapM toDict?) with
+    | some d => pure (.list [.sym "ok", ofDict d])
+    | none => pure (.list [.sym "raised"])
+  | _ => none
+
+/-- `(cfg-env inherit (("NAME" value) …))` -/
+def hEnv : Handler := handler fun args =>
+  match args with
+  | [inh, env] => do
+    let e ← (← env.toList?).mapM fun it =>
+      match it with
+      | .list [k, v] => do pure ((← k.toStr?), (← toCfg? v))
+      | _ => none
+    pure (ofSetResult (collectEnv (← toDict? inh) e))
+  | _ => none
+
+partial def toProg? : SExp → Option Prog
+  | .list [.sym "skip"] => some .skip
+  | .list [.sym "seq", a, b] => do pure (.seq (← toProg? a) (← toProg? b))
+  | .list [.sym "with", items, body] => do pure (.withSet (← toItems? items) (← toProg? body))
+  | _ => none
+
+/-- `(cfg-prog prog cfg)` ↦ `(normal|exc|stuck cfg (trace…))` -/
+def hProg : Handler := handler fun args =>
+  match args with
+  | [p, cfg] => do
+    let (o, t) := exec (← toProg? p) (← toDict? cfg)
+    let tr := SExp.list (t.map ofDict)
+    match o with
+    | .normal d => pure (.list [.sym "normal", ofDict d, tr])
+    | .exc d => pure (.list [.sym "exc", ofDict d, tr])
+    | .stuck => pure (.list [.sym "stuck", .list [], tr])
+  | _ => none
+
+def table : List (String × Handler) :=
+  [("cfg-set", hSet), ("cfg-set-norollback", hSetNoRollback), ("cfg-exit", hExit), ("cfg-get", hGet),
+   ("cfg-canon", hCanon), ("cfg-update", hUpdate), ("cfg-merge", hMerge), ("cfg-env", hEnv), ("cfg-prog", hProg)]
+end C17
+
+/-! ## C53 — SerializableLock registry -/
+namespace C53
+open Dask.LockReg
+
+def toToken? : SExp → Option Token
+  | .list [.sym "e", n] => do pure (.explicit (← n.toNat?))
+  | .list [.sym "u", n] => do pure (.uuid (← n.toNat?))
+  | _ => none
+
+def toEvent? : SExp → Option Event
+  | .list [.sym "new", .sym "none"] => some (.new none)
+  | .list [.sym "new", n] => do pure (.new (some (← n.toNat?)))
+  | .list [.sym "load", t] => do pure (.load (← toToken? t))
+  | .list [.sym "copy", o] => do pure (.copyOf (← o.toNat?))
+  | .list [.sym "drop", o] => do pure (.drop (← o.toNat?))
+  | .list [.sym "gc", t] => do pure (.gc (← toToken? t))
+  | .list [.sym "acquire", o] => do pure (.acquire (← o.toNat?))
+  | .list [.sym "release", o] => do pure (.release (← o.toNat?))
+  | _ => none
+
+/-- `(lock-run (events…) (tokens…))` with CPython timing (`stepEager`) ↦
+    `(((id lock)…live objects, oldest first) (outcome of every acquire event…) (token still registered?…))` -/
+def hRun : Handler := handler fun args =>
+  match args with
+  | [evs, toks] => do
+    let evs ← (← evs.toList?).mapM toEvent?
+    let toks ← (← toks.toList?).mapM toToken?
+    let (s, outs) := evs.foldl (fun (acc : State × List Bool) e =>
+      let outs := match e with
+        | .acquire o => acc.2 ++ [(canAcquire acc.1 o).getD false]
+        | _ => acc.2
+      (stepEager acc.1 e, outs)) (init, [])
+    pure (.list [.list (s.objs.reverse.map fun x => .list [SExp.ofNat x.id, SExp.ofNat x.lock]),
+                 .list (outs.map SExp.ofBool),
+                 .list (toks.map fun t => SExp.ofBool (s.reg t).isSome)])
+  | _ => none
+
+def table : List (String × Handler) := [("lock-run", hRun)]
+end C53
+
+def table : List (String × Handler) := C17.table ++ C53.table
 
 def main : IO Unit := runDriver table
